@@ -31,27 +31,29 @@ ENGINES = {
     ),
     'netio': dict(
         harness=['engines/netio.c'],
-        sim=['sim/sim.c', 'sim/simalloc.c', 'sim/vkernel.c'],
-        repo=NET_SRC,
+        sim=['sim/sim.c', 'sim/simalloc.c', 'sim/vkernel.c', 'sim/tls_stub.c'],
+        repo=NET_SRC + ['netbuf/netbuf_ssl.c'],
         inc=['network', 'netbuf', 'events', 'datastruct', 'util', 'external/queue', 'network_ssl', '.'],
         wrap=SOCK_WRAPS + ALLOC_WRAPS,
         libs=[],
         props=['C06', 'C07', 'C14'],
         real='network_read.c network_write.c network_accept.c network_connect.c netbuf_read.c netbuf_write.c '
-             'sock.c sock_util.c + the whole event loop as in evloop',
-        stub='kernel sockets (socket/connect/recv/send/accept/poll/...), remote peers, clock, allocator policy',
+             'netbuf_ssl.c sock.c sock_util.c + the whole event loop as in evloop',
+        stub='kernel sockets (socket/connect/recv/send/accept/poll/...), remote peers, clock, allocator policy; '
+             'network_ssl.c (TLS record layer) replaced by a null-cipher pass-through that checks the interface contract',
     ),
     'http': dict(
         harness=['engines/http.c'],
-        sim=['sim/sim.c', 'sim/simalloc.c', 'sim/vkernel.c'],
-        repo=NET_SRC + ['http/http.c'],
+        sim=['sim/sim.c', 'sim/simalloc.c', 'sim/vkernel.c', 'sim/tls_stub.c'],
+        repo=NET_SRC + ['http/http.c', 'http/https.c', 'netbuf/netbuf_ssl.c'],
         inc=['http', 'network', 'netbuf', 'events', 'datastruct', 'util', 'external/queue', 'network_ssl', '.'],
         wrap=SOCK_WRAPS + ALLOC_WRAPS,
         libs=[],
         props=['C08', 'C09', 'C14'],
-        real='http.c netbuf_read.c netbuf_write.c network_connect.c network_read.c network_write.c sock.c '
-             '+ the whole event loop',
-        stub='kernel sockets, the HTTP server (scripted peer), clock, allocator policy',
+        real='http.c https.c netbuf_read.c netbuf_write.c netbuf_ssl.c network_connect.c network_read.c '
+             'network_write.c sock.c + the whole event loop',
+        stub='kernel sockets, the HTTP server (scripted peer), clock, allocator policy; network_ssl.c (TLS record '
+             'layer) replaced by a null-cipher pass-through that checks the interface contract',
     ),
     'containers': dict(
         harness=['engines/containers.c'],
@@ -99,6 +101,11 @@ ENGINES['secrets_hw'] = dict(ENGINES['secrets'],
     cflags=['-maes', '-msse2'], cpuconfig='sim/aesni_config.h', props=['C20'],
     real=ENGINES['secrets']['real'] + ' crypto_aes_aesni.c crypto_aesctr_aesni.c (hardware AES paths)')
 
+# the same harness as an optimised production-style build (-O2, no sanitizers): zeroing that the compiler is
+# entitled to delete (a plain memset before free) is deleted here, as it would be in a release build
+ENGINES['secrets_o2'] = dict(ENGINES['secrets'], cflags=['-O2'], nosan=True, props=['C20'],
+    real=ENGINES['secrets']['real'] + ' (all compiled -O2 without sanitizers, so dead-store elimination applies)')
+
 # property -> engines whose runs decide it
 PROP_ENGINES = {
     'C04': ['evloop'], 'C05': ['evloop'],
@@ -108,5 +115,5 @@ PROP_ENGINES = {
     'C12': ['containers'], 'C13': ['containers'],
     'C14': ['containers', 'evloop', 'netio', 'http'],
     'C19': ['secrets'],
-    'C20': ['secrets', 'secrets_hw', 'entropy'],
+    'C20': ['secrets', 'secrets_hw', 'secrets_o2', 'entropy'],
 }
